@@ -633,9 +633,14 @@ class ScalarType(GraphQLLeafType, NamedType):
             try:
                 if self._parse_literal is not None:
                     return self._parse_literal(node, variables or {})
-                return self.parse(node.value)
             except AttributeError:
-                return self.parse(node.value)
+                pass
+
+            # List, object, null and variable nodes do not carry a value.
+            if not hasattr(node, "value"):
+                raise TypeError("Invalid literal %s" % type(node).__name__)
+
+            return self.parse(node.value)
         except (ValueError, TypeError) as err:
             raise ScalarParsingError(str(err), [node]) from err
 
